@@ -142,6 +142,19 @@ R8 = {
  "C13": "Round 8: (both changes caught by the round-7 rule-spec and empty-string generators).",
 }
 
+# round 9 (DESIGN.md §12.8)
+R9 = {
+ "C04": "Round 9: bodies that repeat the record's own header.",
+ "C05": "Round 9: every sequence <=5 over the tokens of the AVC head.",
+ "C12": "Round 9: unnamed / abstract unix sockets (the path key is present and empty).",
+ "C14": "Round 9: words the flag package treats specially (-h, --help ...) at every position.",
+ "C09": "Round 9: groups without SYSCALL whose later records carry no fields; a value and its hex spelling under one key in two records.",
+ "C20": "Round 9: exported tables unchanged by use (digest before/after, unknown inputs through every consumer); 16 repetitions of the selection check.",
+ "C08": "Round 9: reply nlmsg_pid changing per reply, nlmsg_len understating/overstating the datagram; package-level counters.",
+ "C16": "Round 9: GetStatus replies announcing more than arrived after a longer reply; GetStatus naming this process then every setter.",
+ "C17": "Round 9: transports that panic once in Close / in the n-th Send (caller recovers); package-level counters.",
+}
+
 def emit():
     out = {
         "version": 1,
@@ -185,7 +198,7 @@ def emit():
                 "evidence_file": f"/verif/evidence/{pid}.json",
                 "replay_cmd_template": f"./vcheck {pid} --replay {{path}}",
                 "engine": c["engine"],
-                "level_claimed": {"category": c["level"], "text": c["text"] + " " + R7.get(pid, "") + " " + R8.get(pid, ""), "design_ref": c["design"] + ", §12.6, §12.7"},
+                "level_claimed": {"category": c["level"], "text": c["text"] + " " + R7.get(pid, "") + " " + R8.get(pid, "") + " " + R9.get(pid, ""), "design_ref": c["design"] + ", §12.6, §12.7, §12.8"},
                 "level_note": c["note"],
                 "technique": c["technique"],
             })
